@@ -143,6 +143,7 @@ structure InvB (a : Arpa) (T : Table) (R : Ptr → Rat) (ws2 h : List Word) (s0 
 structure ClosedOut (a : Arpa) (T : Table) (R : Ptr → Rat) (ws2 h : List Word) (s0 : State) (P0 : List Ptr) (base : Rat)
     (L2 : Nat) (c : Chart) (st' : StepOut) (Lp : Nat) : Prop where
   Lp_le : Lp ≤ L2
+  bound : Lp + s0.length ≤ a.order - 1
   done : st'.rs.leftDone = true
   ptrs : st'.rs.out.left.pointers = P0 ++ (List.range Lp).map (fun i' => pre ws2 i' ++ h)
   xl : ∀ i', i' < Lp → T.xl (pre ws2 i' ++ h) = true
@@ -250,6 +251,7 @@ theorem loopB (H : Hyp a T) (R : Ptr → Rat) {ws2 : List Word} {L2 : Nat} {c : 
             have := H.ok.xl_sound _ x t ht hxl
             exact hne this
       simp only [hpr]
+      have hb1 : i + s0.length ≤ a.order - 1 := by have := I.hN; rw [I.nu_eq] at this; omega
       have hX : st.rs.prob + ret.prob + remaining a R ws2 L2 h (i+1) =
           base + hSum R ws2 h i - restSum R ws2 i + remaining a R ws2 L2 h i := by
         rw [I.prob, hrem, hprob]; grind
@@ -259,20 +261,20 @@ theorem loopB (H : Hyp a T) (R : Ptr → Rat) {ws2 : List Word} {L2 : Nat} {c : 
         · simp only [hz, if_true]
           rw [extendAll_exit R c fuel _ _ rfl]
           have hz' : ret.nextUse = 0 := by simpa using hz
-          refine Or.inr ⟨i, ⟨by omega, rfl, I.ptrs, I.xl, Or.inl ⟨hiw, hcn⟩, Or.inl ⟨rfl, rfl, hdead1 hz', ?_⟩⟩⟩
+          refine Or.inr ⟨i, ⟨by omega, hb1, rfl, I.ptrs, I.xl, Or.inl ⟨hiw, hcn⟩, Or.inl ⟨rfl, rfl, hdead1 hz', ?_⟩⟩⟩
           show st.rs.prob + ret.prob + unRest T R (c.left.pointers.drop (i+1)) (i+1+1) = _
           rw [hunrest hz', hX]
         · simp only [hz, Bool.false_eq_true, if_false]
           have I' := hnext { st.rs with prob := st.rs.prob + ret.prob, leftDone := true } I.right
           obtain ⟨h1, h2, h3⟩ := loopA H R G sf nm fuel (i+1) _ (by omega) I' rfl
-          refine Or.inr ⟨i, ⟨by omega, h1, by rw [h2]; exact I.ptrs, I.xl, Or.inl ⟨hiw, hcn⟩, ?_⟩⟩
+          refine Or.inr ⟨i, ⟨by omega, hb1, h1, by rw [h2]; exact I.ptrs, I.xl, Or.inl ⟨hiw, hcn⟩, ?_⟩⟩
           rcases h3 with ⟨e1, e2, e3, e4⟩ | ⟨e1, e2, e3⟩
           · exact Or.inl ⟨e1, e2, e3, by rw [e4]; exact hX⟩
           · exact Or.inr ⟨e1, e2, by rw [e3]; exact hX⟩
       · simp only [hne, Bool.false_eq_true, if_false]
         have I' := hnext { st.rs with prob := st.rs.prob + ret.prob, leftDone := true } I.right
         obtain ⟨h1, h2, h3⟩ := loopA H R G sf nm fuel (i+1) _ (by omega) I' rfl
-        refine Or.inr ⟨i, ⟨by omega, h1, by rw [h2]; exact I.ptrs, I.xl, Or.inl ⟨hiw, hcn⟩, ?_⟩⟩
+        refine Or.inr ⟨i, ⟨by omega, hb1, h1, by rw [h2]; exact I.ptrs, I.xl, Or.inl ⟨hiw, hcn⟩, ?_⟩⟩
         rcases h3 with ⟨e1, e2, e3, e4⟩ | ⟨e1, e2, e3⟩
         · exact Or.inl ⟨e1, e2, e3, by rw [e4]; exact hX⟩
         · exact Or.inr ⟨e1, e2, by rw [e3]; exact hX⟩
@@ -310,6 +312,7 @@ theorem loopB (H : Hyp a T) (R : Ptr → Rat) {ws2 : List Word} {L2 : Nat} {c : 
       · -- … but it does not extend right: complete with `i+1` new pointers
         simp only [hne, if_true]
         have hnen : ret.nextUse ≠ h.length := by rw [← hall]; simpa using hne
+        have hb2 : i + 1 + s0.length ≤ a.order - 1 := by rw [hall, ← hord]; omega
         have hxr : T.xr (pre ws2 i ++ h) = false := by
           have := hs.unmarked h.length (by have := hs.nu_le.1; omega) (by omega) (by rw [hgl]; omega)
           rwa [htakeall _ (Nat.le_refl _), ← hpc] at this
@@ -321,14 +324,14 @@ theorem loopB (H : Hyp a T) (R : Ptr → Rat) {ws2 : List Word} {L2 : Nat} {c : 
         · simp only [hz, if_true]
           rw [extendAll_exit R c fuel _ _ rfl]
           have hz' : ret.nextUse = 0 := by simpa using hz
-          refine Or.inr ⟨i+1, ⟨by omega, rfl, hptrs', hxl', hcn, Or.inl ⟨rfl, rfl, hdead1 hz', ?_⟩⟩⟩
+          refine Or.inr ⟨i+1, ⟨by omega, hb2, rfl, hptrs', hxl', hcn, Or.inl ⟨rfl, rfl, hdead1 hz', ?_⟩⟩⟩
           show st.rs.prob + ret.rest + unRest T R (c.left.pointers.drop (i+1)) (i+1+1) = _
           rw [hunrest hz', hX]
         · simp only [hz, Bool.false_eq_true, if_false]
           have I' := hnext { st.rs with out := { st.rs.out with left := { st.rs.out.left with pointers := st.rs.out.left.pointers ++ [pre ws2 i ++ h] } },
                                         prob := st.rs.prob + ret.rest, leftDone := true } I.right
           obtain ⟨h1, h2, h3⟩ := loopA H R G sf nm fuel (i+1) _ (by omega) I' rfl
-          refine Or.inr ⟨i+1, ⟨by omega, h1, by rw [h2]; exact hptrs', hxl', hcn, ?_⟩⟩
+          refine Or.inr ⟨i+1, ⟨by omega, hb2, h1, by rw [h2]; exact hptrs', hxl', hcn, ?_⟩⟩
           rcases h3 with ⟨e1, e2, e3, e4⟩ | ⟨e1, e2, e3⟩
           · exact Or.inl ⟨e1, e2, e3, by rw [e4]; exact hX⟩
           · exact Or.inr ⟨e1, e2, by rw [e3]; exact hX⟩
